@@ -45,16 +45,16 @@ theorem set_plain_content_spec (ext : Ext) (s : Strm) (c : Bytes) (hn : s.dict.K
   simp only [getPlainContent, streamFilters, hF]
   exact congrArg Outcome.ok (setPlainContent_length s c).2
 
-/-- decompressing never changes a stream's plain content (`Filter` not the empty array) -/
-theorem decompress_keeps_plain (ext : Ext) (s : Strm) (hn : s.dict.KeysNodup) (hne : streamFilters s.dict ≠ some []) :
-    getPlainContent ext (decompS ext s) = getPlainContent ext s := decompS_plain' ext s hn hne
+/-- decompressing never changes a stream's plain content (any `Filter`, the empty array included) -/
+theorem decompress_keeps_plain (ext : Ext) (s : Strm) (hn : s.dict.KeysNodup) :
+    getPlainContent ext (decompS ext s) = getPlainContent ext s := decompS_plain' ext s hn
 
 /-- **compress then decompress** restores the plain content of every stream (flate2 hypotheses) -/
 theorem compress_decompress_plain (ext : Ext) (deflate : Bytes → Bytes)
     (hfl : ∀ x, ext.inflate (deflate x) = x) (hne : ∀ x, deflate x ≠ [])
-    (s : Strm) (hn : s.dict.KeysNodup) (hf : streamFilters s.dict ≠ some []) :
+    (s : Strm) (hn : s.dict.KeysNodup) :
     getPlainContent ext (decompS ext (compress deflate s)) = getPlainContent ext s :=
-  compress_decompress_plain' ext deflate hfl hne s hn hf
+  compress_decompress_plain' ext deflate hfl hne s hn
 
 /-- **`Document::decompress`**, object by object: ids are kept; non-stream objects are untouched; a stream is either
 untouched (it cannot be decoded) or has lost `Filter` and `DecodeParms`, holds exactly its decoded content and a right
@@ -85,7 +85,7 @@ theorem doc_compress_decompress (ext : Ext) (deflate : Bytes → Bytes) (allows 
 example : plainOf toyExt (decompObj toyExt (compObj (fun x => 0 :: x) true (.stream [(K_LENGTH, .int 3)] [1, 2, 3])))
     = some (.ok [1, 2, 3]) :=
   (doc_compress_decompress toyExt (fun x => 0 :: x) (fun _ => true) (fun _ => rfl) (fun _ => by simp) [] (1, 0)).2.2.2
-    (.stream [(K_LENGTH, .int 3)] [1, 2, 3]) true ⟨by unfold Dict.KeysNodup; decide, by decide⟩
+    (.stream [(K_LENGTH, .int 3)] [1, 2, 3]) true (by unfold StreamOk Dict.KeysNodup; decide)
 
 /-- regression of finding F-C09-d (repaired by lopdf 70e5e99): with the EMPTY filter array `decompressed_content`
 is the content itself and `decompress` keeps it. (The guard `Filter ≠ []` of the theorems above is therefore no
